@@ -35,6 +35,9 @@ func newExec(P *Program, DB *SpecDB, S *Sorts, mode Mode) *Exec {
 // VerifyFunc generates the obligations of one function under contract.
 func VerifyFunc(P *Program, DB *SpecDB, fn *ssa.Function, ct *Contract) (res *FuncResult) {
 	key := FuncKey(fn)
+	if ct.Case != "" {
+		key += "#" + ct.Case
+	}
 	res = &FuncResult{Key: ShortKey(key), Mode: ct.Mode, Trusted: ct.Trusted, NoSafety: ct.NoSafety, fn: fn, ct: ct}
 	defer func() {
 		if r := recover(); r != nil {
